@@ -31,7 +31,7 @@ RULE = ('case = history of <=6 BeartypeConf(**kw) calls + a final one, each kw f
         'runs only the final call; non-trivial = history holds a value that is == but not identical '
         '(or of another type) to a later one for the same option, or the final call sets >=3 non-default options. In addition the '
         'finite part of the domain is enumerated, not sampled: every (option, pool value incl. falsy junk) pair alone in a fresh '
-        'process (quick and thorough) and every invalid / look-alike value right after every valid one of the same option (thorough)')
+        'process and every ordered pair of distinct valid values of one option back to back (quick and thorough), and every invalid / look-alike value right after every valid one of the same option (thorough)')
 ASSUMPTIONS = [
     'documented adjustment: when BEARTYPE_IS_COLOR is set (part of the generated case) it overrides is_color',
     'validity model: bool options accept exactly bool; enums exactly their members; violation types None or Exception subclasses; '
@@ -75,6 +75,10 @@ def _objects():
         'FD(float:float|int)': FrozenDict({float: float | int}),
         'FD(float:str)': FrozenDict({float: str}),
         '{int:str}': {int: str}, '{}': {},
+        # unequal values with equal hashes (hash(-1) == hash(-2) in CPython, and Literal / Annotated / tuple hashes are functions
+        # of their members' hashes): a memo keyed by hash alone conflates them
+        'FD(int:Lit-1)': FrozenDict({int: __import__('typing').Literal[-1]}), 'FD(int:Lit-2)': FrozenDict({int: __import__('typing').Literal[-2]}),
+        "('p-1',)": ('p_1',), "('p-2',)": ('p_2',),
     }
 
 
@@ -94,7 +98,7 @@ POOLS = {
     'claw_is_pep526': (BOOL_OK, BOOL_BAD, []),
     'claw_skip_package_names': (['()', "('a',)", "('a.b','c')", "('c','a.b')", 'frozenset(a)'],
                                 ["('1a',)", '(1,)', "'a.b'", '1', 'None'], ["['a']", "{'a'}"]),
-    'hint_overrides': (['FD()', 'FD(int:float)', 'FD(float:float|int)', 'FD(float:str)'],
+    'hint_overrides': (['FD(int:Lit-1)', 'FD(int:Lit-2)', 'FD()', 'FD(int:float)', 'FD(float:float|int)', 'FD(float:str)'],
                        ['{int:str}', '{}', '[]', 'None', '1', '0', "''", '()'], []),
     'is_color': (['True', 'False', 'None'], ['1', '0', "'True'", '1.0', "''", '()', '0.0'], []),
     'is_debug': (BOOL_OK, BOOL_BAD, []),
@@ -399,6 +403,13 @@ def extra_engine(tier, seed, agg, safe_run_case):
         for tok in ok + bad + either:
             safe_run_case(mod, {'history': [], 'final': [[opt, tok]], 'perm': 0, 'env_color': None}, agg)
             n += 1
+        # every ordered pair of distinct valid values of one option, one right after the other (a memo that conflates two
+        # valid configurations answers the second with the first)
+        for a in ok:
+            for b in ok:
+                if a != b:
+                    safe_run_case(mod, {'history': [[[opt, a]]], 'final': [[opt, b]], 'perm': 0, 'env_color': None}, agg)
+                    n += 1
         if tier == 'thorough':
             for good in ok:
                 for tok in bad + either:
